@@ -7,6 +7,7 @@ an unknown value forks the path (bounded).  Calls are resolved by (1) caller-sup
 functions, (3) inlining the workspace body up to a depth bound; anything else yields Unknown.
 """
 import copy
+import os
 import re
 
 from .facts import AnalysisError
@@ -564,6 +565,8 @@ class Interp:
                 return 1 if v.variant == "Some" else 0
             if isinstance(v, Adt) and v.path == "core::result::Result":
                 return 0 if v.variant == "Ok" else 1
+            if isinstance(v, Adt) and v.path == "core::ops::control_flow::ControlFlow":
+                return 0 if v.variant == "Continue" else 1
             if isinstance(v, Sym):
                 pty = self._place_ty(frame, rv["pl"])
                 if pty.startswith(("std::option::Option<", "core::option::Option<")) and v.adt != "core::option::Option!inner":
@@ -833,6 +836,11 @@ class Interp:
             nf.ret_to = t["target"]
             p.frames.append(nf)
             return "pushed"
+        if os.environ.get("VERIF_TRACE_UNKNOWN"):
+            import sys
+            print("UNKNOWN-CALL %s in %s bb%d line %s: callee=%s resolved=%s self=%s args=%s" % (
+                t.get("callee_name"), fr.f["key"], fr.bb, t["sp"].get("line"), t.get("callee"), t.get("resolved_key"), t.get("callee_self"),
+                [type(self.deref(a)).__name__ + ":" + repr(self.deref(a))[:60] for a in args]), file=sys.stderr)
         return self._finish_call(fr, t, Sym("ret:%s@%s:bb%d" % (t.get("callee_name") or "?", fr.f["key"].split("::")[-1], fr.bb)))
 
     def call_value(self, fv, args, depth):
@@ -1171,6 +1179,25 @@ def std_model(I, p, fr, t, args):
         if r is None:
             return Unknown("eq")
         return r if n == "eq" else (not r)
+    # the `?` operator: Try::branch / FromResidual::from_residual on Option and Result
+    if n == "branch" and t.get("callee_trait") == "core::ops::try_trait::Try" and isinstance(d0, Adt) and d0.path in ("core::option::Option", "core::result::Result") \
+            and d0.variant in ("Some", "None", "Ok", "Err"):
+        CF = "core::ops::control_flow::ControlFlow"
+        if d0.variant in ("Some", "Ok"):
+            return Adt(CF, "Continue", {"0": d0.fields.get("0")})
+        return Adt(CF, "Break", {"0": Adt(d0.path, d0.variant, dict(d0.fields))})
+    if n == "from_residual" and t.get("callee_trait") == "core::ops::try_trait::FromResidual" and isinstance(d0, Adt) and d0.variant in ("None", "Err"):
+        dty = fr.f["locals"][t["dest"]["l"]]["ty"]
+        if d0.variant == "None" and dty.startswith(("std::option::Option", "core::option::Option")):
+            return Adt("core::option::Option", "None", {})
+        if d0.variant == "Err" and dty.startswith(("std::result::Result", "core::result::Result")):
+            e = I.deref(d0.fields.get("0"))
+            ety = dty.rsplit(", ", 1)[-1].rstrip(">").strip()
+            # the error is converted with From; the identity conversion when the error already has the destination's type
+            if isinstance(e, Adt) and e.path and ety and (e.path.split("::")[-1] == ety.split("::")[-1].split("<")[0]):
+                return Adt("core::result::Result", "Err", {"0": e})
+            if isinstance(e, Sym):
+                return Adt("core::result::Result", "Err", {"0": e})
     # Option / Result combinators taking closures (evaluated by nested interpretation)
     if isinstance(d0, Adt) and d0.path in ("core::option::Option", "core::result::Result") and sadt in ("core::option::Option", "core::result::Result"):
         depth = getattr(fr, "depth", 0)
